@@ -266,3 +266,69 @@ def rt_partialfwd(req):
 
 
 RT['partialfwd'] = rt_partialfwd
+
+
+# ----------------------------------------------------------------------------- C04: two declarations stacked on one wrapper
+_STACKED_SRC = '''
+from sigtools import specifiers
+def f(x, y=2): return (x, y)
+def f2(x, /): return (x,)
+def g(*, k=1, m=0): return (k, m)
+def g2(k=1): return (k,)
+def g3(): return ()
+%s
+'''
+
+
+def rt_stacked_decl(req):
+    """two forwards_to_function(..., emulate=True) declarations on one wrapper, one for *args and one for **kwargs:
+    sigtools.signature and inspect.signature report the embedding of both callees, and every accepted call runs"""
+    import inspect
+    from . import oracles as O
+    problems = []
+    for fa, ga in (('f', 'g'), ('f', 'g2'), ('f', 'g3'), ('f2', 'g'), ('f2', 'g3')):
+        for as_method in (False, True):
+            body = '''
+@specifiers.forwards_to_function(%s, use_varkwargs=False, emulate=True)
+@specifiers.forwards_to_function(%s, use_varargs=False, emulate=True)
+def w(%sa, *args, **kwargs):
+    return %s(*args), %s(**kwargs)
+''' % (fa, ga, 'self, ' if as_method else '', fa, ga)
+            if as_method:
+                body = 'class C(object):\n' + '\n'.join('    ' + l for l in body.strip('\n').split('\n')) + '\ntarget = C().w\n'
+            else:
+                body += 'target = w\n'
+            text = _STACKED_SRC % body
+            mod, fname = progs.load_module(text)
+            try:
+                with warnings.catch_warnings():
+                    warnings.simplefilter('ignore')
+                    try:
+                        sg = sigtools.signature(mod.target)
+                        isg = inspect.signature(mod.target)
+                    except Exception as e:  # noqa
+                        problems.append('stacked-declaration-raises: %s for\n%s' % (type(e).__name__, text))
+                        continue
+                    own = signatures.signature(mod.target.__wrapped__.__wrapped__ if not as_method else mod.C.__dict__['w'].__wrapped__.__wrapped__)
+                    inner = signatures.forwards(own, signatures.signature(getattr(mod, ga)), use_varargs=False)
+                    want = signatures.forwards(inner, signatures.signature(getattr(mod, fa)), use_varkwargs=False)
+                    if as_method:
+                        want = signatures.mask(want, 1)
+                if str(sg) != str(want) or str(isg) != str(want):
+                    problems.append('stacked-declaration-differs: sigtools %s, inspect %s, the two declarations composed by hand %s for\n%s' % (
+                        sg, isg, want, text))
+                    continue
+                R = [(q.name, core.KIND_NAME[q.kind], None if q.default is q.empty else 1) for q in sg.parameters.values()]
+                for m, K in O.shapes_for([R], foreign=('zz',), maxk=2):
+                    if O.acc(R, m, K):
+                        try:
+                            mod.target(*([0] * m), **{k: 0 for k in K})
+                        except TypeError as e:
+                            problems.append('stacked-declaration-unsound: %s accepts (%d,%s) but the call raises TypeError: %s\n%s' % (sg, m, K, e, text))
+                            break
+            finally:
+                progs.unload(fname)
+    return ('ok', tuple(problems[:2]), 'stacked')
+
+
+RT['stacked_decl'] = rt_stacked_decl
